@@ -3,7 +3,7 @@
 From Coq Require Import List NArith ZArith Bool Lia.
 From Verif Require Import Common.GoInt Gen.Sequence GenProofs.SequenceProofs.
 From Verif Require Import Chain.Model Chain.Proofs Chain.ProofsWalk Chain.ProofsSys Chain.ProofsPath Chain.Examples
-  LogDB.Model LogDB.Proofs LogDB.ProofsCanon LogDB.ProofsRows LogDB.ProofsSync.
+  LogDB.Model LogDB.Proofs LogDB.ProofsCanon LogDB.ProofsRows LogDB.ProofsSync LogDB.ProofsVerify.
 Import ListNotations.
 Open Scope N_scope.
 
@@ -120,8 +120,8 @@ Proof.
   exact (path_exists g gp r W (r_best r) (w_best _ _ _ W)).
 Qed.
 
-(* 6. the startup re-sync (cmd/thor/sync_logdb.go as repaired by 47028d8; model only — the functions live in package
-      main): if the tables are the canonical tables of ANY stored block x (the best block when logs were last written:
+(* 6. the startup re-sync (cmd/thor/sync_logdb.go as repaired by 47028d8; the functions live in package main and are
+      tied to the model through the test binary of cmd/thor, see harness/cmd/c15/synclog.go): if the tables are the canonical tables of ANY stored block x (the best block when logs were last written:
       an ancestor of the current best, a descendant of it, or a block of an abandoned branch), then after sync_logdb
       they are the canonical tables of the current best block.  Covers all four exits of seekLogDBSyncPosition
       (empty chain, empty tables, newest row belongs to best, seek walk with HasBlockID's exact-key test — a block
@@ -135,6 +135,44 @@ Proof.
   intros Hg R Px Pb Hdb Hs. pose proof (reachable_wf _ _ _ _ _ Hg R) as W. pose proof (reachable_wf_body _ _ _ _ _ Hg R) as WB.
   pose proof (sync_reestablishes_lemma g gp r W WB x st_x st_b db Px Pb Hdb db' Hs) as H.
   split; [exact H|]. exact (rows_of_path_flat r st_b WB (path_desc g gp r W _ _ Pb) db' H).
+Qed.
+
+(* 7. syncLogDB's verify argument (verifyLogDB: 100-block windows re-read from the tables, the leading rows carrying the
+      block's id compared field by field with the rows its receipts prescribe).  (a) a re-sync that succeeds with
+      verify = true leaves the canonical tables; (b) verifyLogDB accepts canonical tables up to any block that best's
+      chain shares with the chain the tables were written for; (c) hence on such tables the verifying re-sync behaves
+      exactly like the plain one: it never fails where the plain one succeeds (for chains below 2^28 - 100 blocks: the
+      window's upper end must be a valid block number, as in the code).  Nothing is claimed about verifyLogDB as a
+      detector of wrong tables (it overlooks stale rows of a foreign block when the canonical blocks of the rest of the
+      window carry no logs; corpus/C15/synclog-verify-overlooks-stale-sibling-rows.json shows it on the real code). *)
+Theorem sync_verify_reestablishes_canonical g gp tag adm r x st_x st_b db db' v :
+  num_of g = 0 -> reachable g gp tag adm r ->
+  is_path r x st_x -> is_path r (r_best r) st_b -> rows_of_path r st_x = Some db ->
+  sync_logdb_v v r db = Some db' ->
+  rows_of_path r st_b = Some db' /\ db_events db' = chain_events r st_b /\ db_transfers db' = chain_transfers r st_b.
+Proof.
+  intros Hg R Px Pb Hdb Hs.
+  exact (sync_reestablishes_canonical g gp tag adm r x st_x st_b db db' Hg R Px Pb Hdb (sync_logdb_v_some v r db db' Hs)).
+Qed.
+
+Theorem verify_accepts_canonical_prefix g gp tag adm r x st_x db h e :
+  num_of g = 0 -> reachable g gp tag adm r ->
+  is_path r x st_x -> rows_of_path r st_x = Some db ->
+  In h st_x -> anc r (r_best r) h -> num_of h + log_step <= max_block -> e <= num_of h ->
+  verify_logdb r db e = true.
+Proof.
+  intros Hg R Px Hdb Hin Ha Hmax He.
+  exact (verify_accepts_common_prefix g gp r (reachable_wf _ _ _ _ _ Hg R) (reachable_wf_body _ _ _ _ _ Hg R) x st_x db Px Hdb h Hin Ha Hmax e He).
+Qed.
+
+Theorem sync_verify_raises_no_false_alarm g gp tag adm r x st_x db v :
+  num_of g = 0 -> reachable g gp tag adm r ->
+  is_path r x st_x -> rows_of_path r st_x = Some db ->
+  num_of (r_best r) + log_step <= max_block ->
+  sync_logdb_v v r db = sync_logdb r db.
+Proof.
+  intros Hg R Px Hdb Hmax.
+  exact (sync_verify_no_false_alarm g gp r (reachable_wf _ _ _ _ _ Hg R) (reachable_wf_body _ _ _ _ _ Hg R) x st_x db Px Hdb v Hmax).
 Qed.
 
 (* non-vacuity: the example history of Chain/Examples.v (tx 1001 with logs on both siblings at height 2, then a
@@ -183,6 +221,15 @@ Proof.
   - eexists. split; [vm_compute; reflexivity|]. vm_compute. repeat split.
 Qed.
 
+(* non-vacuity of 7 on the same situation: verifyLogDB accepts the tables of (2,2) up to height 2, rejects them at height 3
+   (best's block 3 has logs the tables do not hold), and the verifying re-sync gives the canonical tables of best *)
+Example ex_c15_verify :
+  exists dbx, rows_of_path ex_r5 [bid 2 2; bid 1 1; ex_g] = Some dbx /\
+    verify_logdb ex_r5 dbx 2 = true /\ verify_logdb ex_r5 dbx 3 = false /\
+    sync_logdb_v true ex_r5 dbx = rows_of_path ex_r5 [bid 3 7; bid 2 2; bid 1 1; ex_g] /\
+    In (bid 2 2) [bid 2 2; bid 1 1; ex_g] /\ num_of (r_best ex_r5) + log_step <= max_block.
+Proof. eexists. split; [vm_compute; reflexivity|]. vm_compute. repeat split; auto; discriminate. Qed.
+
 Print Assumptions seq_pack_inj_mono.
 Print Assumptions seq_model_is_translated.
 Print Assumptions filter_is_subsequence_events.
@@ -195,3 +242,6 @@ Print Assumptions logdb_is_canonical_logs.
 Print Assumptions filter_on_canonical_logs.
 Print Assumptions write_block_appends_rows.
 Print Assumptions sync_reestablishes_canonical.
+Print Assumptions sync_verify_reestablishes_canonical.
+Print Assumptions verify_accepts_canonical_prefix.
+Print Assumptions sync_verify_raises_no_false_alarm.
